@@ -28,7 +28,7 @@ class SyncSuite(Suite):
     name = "sync"
     needs_root = True
     focus = ("c01",)
-    n_cases = {"quick": 250, "thorough": 6000, "search": 120}
+    n_cases = {"quick": 600, "thorough": 6000, "search": 120}
     rule = ("(source tree, prior destination) pairs: source in memory (readers with short-read schedules) or on disk, all entry types, hard-link groups, suid/sgid/sticky, xattrs, sizes around "
             "32KiB; destination fresh / edit-script of the source (touch, chmod, chown, rewrite, delete, type swap, add, renumber, relink) / unrelated tree; "
             "merge on/off; differ metadata/none; receive filter; stream capacity 0..64; 12% of the cases with an UNPRIVILEGED receiver (uid 1000 in a chroot'ed "
@@ -367,7 +367,7 @@ class SendFilter(SyncSuite):
             links = [e for e in tree if e["t"] == "hardlink"]
             if links and rng.random() < 0.5:
                 # the outer filter hides the first name of a hard-link group that the inner filter let through
-                sf2["exclude"] = [rng.choice(links)["ln"]]
+                sf2["exclude"] = [(lambda c: hx(b"".join(b"\\" + bytes([x]) if x in b"*?[]\\" else bytes([x]) for x in bytes.fromhex(c))))(rng.choice(links)["ln"])]
                 if rng.random() < 0.6:
                     op["src"]["kind"] = "disk"
             elif rng.random() < 0.5:
@@ -406,6 +406,19 @@ class SendFilter(SyncSuite):
 class SyncC05(SyncSuite):
     name = "notify"
     focus = ("c05",)
+
+    def gen_case(self, rng):
+        op = super().gen_case(rng)
+        if op["src"]["kind"] == "mem" and rng.random() < 0.15:
+            # a source that announces a size its readers do not deliver (a file that grew or shrank after it was listed, procfs-style
+            # entries of size 0): the digest still covers exactly the bytes that were stored
+            files = [e for e in op["src"]["tree"] if e["t"] == "file" and not e.get("openerr")]
+            for e in rng.sample(files, min(len(files), rng.randint(1, 3))):
+                real = e.get("size", 0) + e.get("hole", 0)
+                e["asize"] = rng.choice([0, 0, real + 1, max(real - 1, 0), 1, 32768])
+                if real == 0 and rng.random() < 0.7:
+                    e["size"] = rng.choice([1, 5, 4096, 40000])
+        return op
 
 
 def canon_after(after, before):
@@ -517,6 +530,7 @@ class SchedSuite(SyncSuite):
 class RaceSuite(SchedSuite):
     """C08, last clause: the same transfers executed by a harness built with -race; any report of the Go race detector is a violation"""
     name = "race"
+    handles_crash = True
     n_cases = {"quick": 30, "thorough": 600, "search": 10}
     K = {"quick": 4, "thorough": 8, "search": 3}
     rule = ("the schedules of the sched suite executed by a harness built with `go build -race` (GORACE=halt_on_error): every report of the race "
@@ -648,7 +662,7 @@ class FollowSend(SendFilter):
     name = "followsend"
     focus = ("c01", "c11")
     unpriv_share = 0
-    n_cases = {"quick": 400, "thorough": 8000, "search": 150}
+    n_cases = {"quick": 1200, "thorough": 8000, "search": 150}
     rule = ("link trees of the followlinks suite (relative, absolute, '..', chained, cyclic, dangling links) x request lists as FilterOpt.FollowPaths "
             "(optionally with include patterns); real Send over NewFilterFS + Receive into an empty destination; STAT log vs the model's filtered view; "
             "oracle: destination = view (C01), link names closed (C11), every requested path without wildcard resolves in the destination to the same "
@@ -708,5 +722,9 @@ class FollowSend(SendFilter):
         # F12 / F19: FollowLinks returned an include set that is not closed for these requests (see the followlinks suite): the transferred
         # tree then lacks a link target. Signature: implementation = model and the reference says the include set is not closed.
         "F19": lambda op, impl, model: model.get("follow_spec") is False and model.get("follow") is False
+        and [norm_stat(s) for s in sent_stats(impl)] == [norm_stat(s) for s in model.get("sent", [])],
+        # F32: the same, with a link whose resolution text has a component with a pattern metacharacter in the tree
+        # (or the include set is closed but names the literal '[v1]x' unescaped, which the filter reads as a class)
+        "F32": lambda op, impl, model: model.get("follow_metalink") is True and model.get("follow") is False
         and [norm_stat(s) for s in sent_stats(impl)] == [norm_stat(s) for s in model.get("sent", [])],
     }
